@@ -8,6 +8,7 @@ CONSTANTS
   Fmts = {"bc_idx"}
   NFiles = {1}
   Lazy = {"none", "other", "this", "star"}
+  ProbeMax = 5
   Touches = {"lookup", "getitem"}
   Variant = "design"
 INVARIANT TypeOK
